@@ -376,9 +376,13 @@ theorem expandFields_erase (sty decl : Nat) (fs : List (String × Nat)) :
       simp only [List.map_append, List.map_cons, List.map_nil, List.length_map]
       rfl
 
-theorem pass2_erase (sps : List PSpec) :
+/-- what erasing does to the result of one round of pass 2 -/
+def eraseR3 (r : List PSpec × SupMap × List PSpec) : List PSpec × SupMap × List PSpec :=
+  (r.1.map eraseAsync, r.2.1, r.2.2.map eraseAsync)
+
+theorem pass2Round_erase (sps : List PSpec) :
     ∀ (provs : List PSpec) (m : SupMap),
-      pass2 (sps.map eraseAsync) (provs.map eraseAsync) m = (pass2 sps provs m).map eraseR := by
+      pass2Round (sps.map eraseAsync) (provs.map eraseAsync) m = (pass2Round sps provs m).map eraseR3 := by
   induction sps with
   | nil => intro provs m; rfl
   | cons sp sps ih =>
@@ -386,14 +390,53 @@ theorem pass2_erase (sps : List PSpec) :
     have e1 : (eraseAsync sp).structTy = sp.structTy := rfl
     have e2 : (eraseAsync sp).decl = sp.decl := rfl
     have e3 : (eraseAsync sp).fields = sp.fields := rfl
-    simp only [List.map_cons, pass2, e1, e2, e3]
     cases hl : List.lookup sp.structTy m with
-    | none => rfl
+    | none =>
+      rw [List.map_cons, pass2Round_cons_none (sp := eraseAsync sp) _ _ hl, pass2Round_cons_none _ _ hl, ih]
+      cases pass2Round sps provs m with
+      | error e => rfl
+      | ok r => rfl
     | some x =>
-      simp only [bind, Except.bind, expandFields_erase]
+      rw [List.map_cons, pass2Round_cons_some (sp := eraseAsync sp) _ _ hl, pass2Round_cons_some _ _ hl, e1, e2, e3,
+        expandFields_erase]
       cases expandFields sp.structTy sp.decl sp.fields provs m with
       | error e => rfl
       | ok r => exact ih r.1 r.2
+
+theorem headD_map_erase (l : List PSpec) (d : PSpec) :
+    ((l.map eraseAsync).headD (eraseAsync d)).structTy = (l.headD d).structTy := by
+  cases l <;> rfl
+
+theorem pass2Rounds_erase (fuel : Nat) :
+    ∀ (sps provs : List PSpec) (m : SupMap),
+      pass2Rounds fuel (sps.map eraseAsync) (provs.map eraseAsync) m = (pass2Rounds fuel sps provs m).map eraseR := by
+  induction fuel with
+  | zero =>
+    intro sps provs m
+    cases sps with
+    | nil => rfl
+    | cons sp sps => rfl
+  | succ fuel ih =>
+    intro sps provs m
+    cases sps with
+    | nil => rfl
+    | cons sp sps =>
+      rw [List.map_cons, pass2Rounds_succ_cons, pass2Rounds_succ_cons, ← List.map_cons, pass2Round_erase]
+      cases pass2Round (sp :: sps) provs m with
+      | error e => rfl
+      | ok r =>
+        simp only [Except.map, eraseR3, List.length_map, headD_map_erase]
+        split
+        · rfl
+        · exact ih _ _ _
+
+theorem pass2_erase (sps : List PSpec) :
+    ∀ (provs : List PSpec) (m : SupMap),
+      pass2 (sps.map eraseAsync) (provs.map eraseAsync) m = (pass2 sps provs m).map eraseR := by
+  intro provs m
+  unfold pass2
+  rw [List.length_map]
+  exact pass2Rounds_erase _ sps provs m
 
 theorem supplierMap_erase (ps : List PSpec) :
     supplierMap (ps.map eraseAsync) = (supplierMap ps).map eraseR := by
